@@ -1326,6 +1326,33 @@ def _match_content(ms):
              rat(m.affinity), None if m.score is None else rat(m.score)) for m in ms]
 
 
+_SKIPPED = [0]
+
+
+def _session_change(st, objs, kinds, content):
+    do = st["do"]
+    if do == "new":
+        objs[st["h"]] = _coll_new(st["kind"], st["clip"], st["ids"], st.get("via", "ctor"))
+        kinds[st["h"]] = st["kind"]
+        content[st["h"]] = {"clip": st["clip"], "ids": list(st["ids"])}
+    elif do == "set_ids":
+        hd = st["h"]
+        _set_members(objs[hd], kinds[hd], content[hd]["ids"], list(st["ids"]), st.get("how", "assign"))
+        content[hd] = {**content[hd], "ids": list(st["ids"])}
+    elif do == "set_clip":
+        hd = st["h"]
+        objs[hd].clip = CLIP(st["clip"], kinds[hd])
+        content[hd] = {**content[hd], "clip": st["clip"]}
+    elif do == "copy":
+        src, dst = st["src"], st["dst"]
+        ids = None if st.get("ids") is None else list(st["ids"])
+        c = _copy_coll(objs[src], kinds[src], content[src]["ids"], ids, st.get("how", "model_copy"))
+        objs[dst], kinds[dst] = c, kinds[src]
+        content[dst] = {"clip": content[src]["clip"], "ids": content[src]["ids"] if ids is None else ids}
+    else:
+        raise KeyError(do)
+
+
 def _impl_clip_eval_history(h):
     """executes a session on live objects; every construction is observed on its own: accepted / rejected, the
     arguments before and after the call, the accepted object against what the objects carried at that moment, and
@@ -1338,25 +1365,16 @@ def _impl_clip_eval_history(h):
     ms_generation = 0
     for k, st in enumerate(h["steps"]):
         do = st["do"]
-        if do == "new":
-            objs[st["h"]] = _coll_new(st["kind"], st["clip"], st["ids"], st.get("via", "ctor"))
-            kinds[st["h"]] = st["kind"]
-            content[st["h"]] = {"clip": st["clip"], "ids": list(st["ids"])}
-        elif do == "set_ids":
-            hd = st["h"]
-            _set_members(objs[hd], kinds[hd], content[hd]["ids"], list(st["ids"]), st.get("how", "assign"))
-            content[hd] = {**content[hd], "ids": list(st["ids"])}
-        elif do == "set_clip":
-            hd = st["h"]
-            objs[hd].clip = CLIP(st["clip"], kinds[hd])
-            content[hd] = {**content[hd], "clip": st["clip"]}
-        elif do == "copy":
-            src, dst = st["src"], st["dst"]
-            ids = None if st.get("ids") is None else list(st["ids"])
-            c = _copy_coll(objs[src], kinds[src], content[src]["ids"], ids, st.get("how", "model_copy"))
-            objs[dst], kinds[dst] = c, kinds[src]
-            content[dst] = {"clip": content[src]["clip"], "ids": content[src]["ids"] if ids is None else ids}
-        elif do == "eval":
+        if do != "eval":
+            # a step that changes or copies an object is not a construction: if the current code does not allow it (frozen
+            # models, objects that cannot be pickled) the session cannot be carried out and is not judged
+            try:
+                _session_change(st, objs, kinds, content)
+            except Exception as e:  # noqa: BLE001
+                _SKIPPED[0] += 1
+                return {"verdicts": verdicts, "notes": notes, "skipped": f"step {k} ({do}): {type(e).__name__}"}
+            continue
+        if do == "eval":
             ca, cp = objs[st["ann"]], objs[st["pred"]]
             nulls = st.get("nulls", "absent")
             path = st.get("path", "ctor")
@@ -1367,13 +1385,17 @@ def _impl_clip_eval_history(h):
                 ms = []
                 reuse = st.get("match_objs") == "reuse"
                 for i, m in enumerate(st["matches"]):
+                    mo = None
                     if reuse and i < len(prev_ms) and _row_constructible(m):
                         mo = prev_ms[i]         # a Match object that was used before, changed by assignment
-                        mo.source = None if m.get("source") is None else PRED(m["source"], "match")
-                        mo.target = None if m.get("target") is None else ANN(m["target"], "match")
-                        mo.affinity = _num(m["affinity"])
-                        mo.score = None if m.get("score") is None else _num(m["score"])
-                    else:
+                        try:
+                            mo.source = None if m.get("source") is None else PRED(m["source"], "match")
+                            mo.target = None if m.get("target") is None else ANN(m["target"], "match")
+                            mo.affinity = _num(m["affinity"])
+                            mo.score = None if m.get("score") is None else _num(m["score"])
+                        except Exception:  # noqa: BLE001 - the current code does not allow assignment: a fresh one
+                            mo = None
+                    if mo is None:
                         mo = _attempt(lambda m=m, i=i: data.Match(**_match_kwargs(m, i, nulls, True)))
                     ms.append(mo)
                 if reuse:
@@ -1449,6 +1471,8 @@ def _impl_clip_eval_history(h):
 def _cmp_history(h, io, mo):
     if isinstance(io, dict) and "raise" in io:
         return f"the session raised {io['raise']} outside a construction"
+    if io.get("skipped"):
+        return None
     for n in io.get("notes", []):
         if n["what"] == "argument-mutated":
             return (f"step {n['step']}: the construction changed one of its arguments in place "
@@ -1473,7 +1497,7 @@ def _cmp_history(h, io, mo):
 
 OPS["clip_eval_history"] = Op(
     "clip_eval_history", _impl_clip_eval_history, compare=_cmp_history, shrink=True, valid=_session_valid,
-    nontrivial=lambda h, out: isinstance(out, dict) and any(v is True for v in out.get("verdicts", [])))
+    nontrivial=lambda h, out: isinstance(out, dict) and not out.get("skipped") and any(v is True for v in out.get("verdicts", [])))
 
 
 # ------------------------------------------------------------------ histories of every operation (harness/history.py)
@@ -1609,10 +1633,14 @@ def _ph_modify(args, inp, how):
                 o.clip = clip
                 out.append(o)
         return out
-    tasks = reuse(args["tasks"], inp["task_clips"], "task",
-                  lambda k, clip: data.AnnotationTask(uuid=U(f"task{k}"), clip=clip, created_on=DT))
-    cas = reuse(args["cas"], inp["ann_clips"], "ann",
-                lambda k, clip: data.ClipAnnotation(uuid=U(f"pca{k}"), clip=clip, created_on=DT), end=end)
+    try:
+        tasks = reuse(args["tasks"], inp["task_clips"], "task",
+                      lambda k, clip: data.AnnotationTask(uuid=U(f"task{k}"), clip=clip, created_on=DT))
+        cas = reuse(args["cas"], inp["ann_clips"], "ann",
+                    lambda k, clip: data.ClipAnnotation(uuid=U(f"pca{k}"), clip=clip, created_on=DT), end=end)
+    except Exception:  # noqa: BLE001 - the current code does not allow the change (frozen models): fresh objects instead
+        args["touched"] = True
+        return None
     if how == "assign":
         args["touched"] = True
         args["tasks"][:] = tasks          # the very list objects, changed in place
@@ -2814,7 +2842,12 @@ def _stage_histories(ctx):
         for st in h["steps"]:
             ctx.tally("session step: " + st["do"] + (":" + st["how"] if st.get("how") else "")
                       + (":" + st["path"] if st.get("path") else ""))
+    _SKIPPED[0] = 0
     ctx.run_cases(OPS["clip_eval_history"], sessions)
+    if _SKIPPED[0]:
+        ctx.tally("sessions not carried out (the code does not allow a change step)", _SKIPPED[0])
+        if _SKIPPED[0] > len(sessions) // 2:
+            ctx.note(f"{_SKIPPED[0]} of {len(sessions)} sessions could not be carried out: the objects do not allow the change steps")
     ctx.exhaustive["sessions"] = ("object kind (annotation / prediction) x every way of changing sound_events (" + ", ".join(SET_HOWS)
                                   + "; copies: " + ", ".join(SHALLOW_COPIES + DEEP_COPIES) + ") x grow / shrink / replace / fill / "
                                   "reorder, construction paths " + ", ".join(EVAL_PATHS) + " in rotation")
